@@ -97,9 +97,10 @@ type sellerWorld struct {
 	acct     bool           // print the watcher's running account (delivery histories)
 	added    map[string]int // tasks handed to miners so far, per contract (allocator.VerifOnAddTask)
 	pending  []string       // output lines produced while executing the op
+	slowEnd  bool
 }
 
-func newSellerWorld(hrs []float64, cycle time.Duration, slowStop bool) *sellerWorld {
+func newSellerWorld(hrs []float64, cycle time.Duration, slowStop bool, slowEnd time.Duration) *sellerWorld {
 	w := &sellerWorld{ctrs: map[string]resources.Contract{}, cycle: cycle, logSeen: map[string]int{}, added: map[string]int{}}
 	allocator.VerifOnAddTask = func(minerID string, taskID string, job float64) {
 		w.mu.Lock()
@@ -109,6 +110,19 @@ func newSellerWorld(hrs []float64, cycle time.Duration, slowStop bool) *sellerWo
 	w.me = lib.MustPrivKeyStringToAddr(sellerKey)
 	w.chain = vh.NewFakeChain(common.HexToAddress("0x00000000000000000000000000000000000000cf"))
 	log := vh.NopLog()
+	if slowEnd > 0 {
+		// the scheduler goroutine pauses (a millisecond, or up to the watcher's next 10 s retry) inside the contract's end callback of a partial task (where the
+		// watcher logs): what runs at the same instant — the watcher's allocation pass at a cycle end — goes first
+		prev := log.OnMsg
+		log.OnMsg = func(level string, msg string) {
+			if strings.HasPrefix(msg, "partial miner ended") {
+				time.Sleep(slowEnd)
+			}
+			if prev != nil {
+				prev(level, msg)
+			}
+		}
+	}
 	if slowStop {
 		// the watcher's goroutine logs "contract stopped" between signalling that it is done and clearing its
 		// running flag: a pause there lets whoever waited for the signal go first (a seam, not a hook: if the
@@ -320,8 +334,9 @@ func sellerExec(tr *vh.Transcript, ops []string) {
 					hrs = append(hrs, hr)
 				}
 			}
-			w = newSellerWorld(hrs, time.Duration(cyc)*time.Second, m["slowstop"] == "1")
+			w = newSellerWorld(hrs, time.Duration(cyc)*time.Second, m["slowstop"] == "1", slowEndOf(m["slowend"]))
 			w.acct = m["acct"] == "1"
+			w.slowEnd = m["slowend"] == "1"   // a millisecond pause is waited out before every observation
 			tr.Op("%s", op)
 			continue
 		case "chain":
@@ -399,6 +414,11 @@ func sellerExec(tr *vh.Transcript, ops []string) {
 			time.Sleep(time.Duration(s) * time.Second)
 		}
 		synctest.Wait()
+		if w.slowEnd {
+			// a scheduler pausing inside an end callback (the seam) is "blocked" for synctest.Wait: let the pause run out
+			time.Sleep(2 * time.Millisecond)
+			synctest.Wait()
+		}
 		tr.Op("%s", op)
 		for _, l := range w.pending {
 			tr.Out("%s", l)
@@ -491,6 +511,16 @@ func (w *sellerWorld) describeLeaving(id string) string {
 		}
 	}
 	return fmt.Sprintf("down %s role=%s hr=%d owed=%d", id, role, int(nominal), owed)
+}
+
+// slowEndOf: "1" = one millisecond, otherwise milliseconds
+func slowEndOf(v string) time.Duration {
+	if v == "" || v == "0" {
+		return 0
+	}
+	var ms int
+	fmt.Sscan(v, &ms)
+	return time.Duration(ms) * time.Millisecond
 }
 
 func kvS(f []string) map[string]string {
@@ -609,6 +639,9 @@ func deliveryGen(r *vh.Rng) []string {
 	}
 	cycle := vh.Pick(r, []int{60, 120, 300})
 	ops := []string{fmt.Sprintf("world hrs=%s cycle=%d acct=1", strings.Join(hrs, ","), cycle)}
+	if r.Bool(40) {
+		ops[0] += " slowend=1" // a pause inside the end callback of partial tasks (see newSellerWorld)
+	}
 	rate := vh.Pick(r, []int{300, 800, 1500, 2600, total / 4, total / 2, total * 3 / 4})
 	if class >= 8 {
 		rate = vh.Pick(r, []int{total * 3 / 4, total * 2 / 3, total - 1200})
@@ -662,6 +695,36 @@ func deliveryGen(r *vh.Rng) []string {
 	return ops
 }
 
+// deliveryWindowGen: a contract served by one whole miner plus a partial job on another; the whole miner leaves mid-cycle with
+// nothing free that is large enough, so that at the cycle end — the instant the partial job's deadline fires — the watcher
+// wants whole miners again.  The end callback of the partial job pauses (slowend): whatever runs at the same instant goes first.
+func deliveryWindowGen(r *vh.Rng) []string {
+	big := vh.Pick(r, []int{3000, 4000, 5000})
+	mid := vh.Pick(r, []int{2000, 2500})
+	extra := vh.Pick(r, []int{0, 1, 2})
+	hrs := []string{fmt.Sprint(big), fmt.Sprint(mid)}
+	for i := 0; i < extra; i++ {
+		hrs = append(hrs, fmt.Sprint(vh.Pick(r, []int{120, 500, mid})))
+	}
+	cycle := vh.Pick(r, []int{60, 120})
+	rate := big + vh.Pick(r, []int{400, 800, 900})
+	cycles := 5 + r.Intn(3)
+	ops := []string{fmt.Sprintf("world hrs=%s cycle=%d acct=1 slowend=%d", strings.Join(hrs, ","), cycle, vh.Pick(r, []int{1, 10001, 10001})),
+		fmt.Sprintf("chain c1 state=0 len=%d hr=%d", cycle*cycles, rate), "startnode",
+		fmt.Sprintf("purchased c1 len=%d hr=%d payload=v:poolx", cycle*cycles+30, rate)}
+	// into the first cycle (10 s start-up delay), then the whole miner leaves
+	ops = append(ops, fmt.Sprintf("advance %d", 10+vh.Pick(r, []int{5, 20, cycle / 2})), "minerdown @full")
+	if r.Bool(30) {
+		ops = append(ops, fmt.Sprintf("minerup m%d hr=%d", len(hrs), vh.Pick(r, []int{120, 500})))
+	}
+	for el := 0; el < cycle*cycles+cycle; {
+		step := vh.Pick(r, []int{cycle / 2, cycle / 2, cycle - 7, 13, 30})
+		ops = append(ops, fmt.Sprintf("advance %d", step))
+		el += step
+	}
+	return ops
+}
+
 func TestVerifDelivery(t *testing.T) {
 	tr := vh.OpenTranscript("delivery.impl.txt")
 	defer tr.Close()
@@ -683,6 +746,10 @@ func TestVerifDelivery(t *testing.T) {
 	for c := 0; c < n; c++ {
 		tr.Case(c, "delivery")
 		run(deliveryGen(root.Fork()))
+	}
+	for c := 0; c < n/4+2; c++ {
+		tr.Case(n+1+c, "delivery")
+		run(deliveryWindowGen(root.Fork()))
 	}
 	// corpus: the fleet of the known finding runs on every seed (no miner large enough for a minimum job in one
 	// cycle, rate below the full-miner threshold)
